@@ -94,6 +94,44 @@ class Facts:
                 self.impls.append(i)
             for s in raw["statics"]:
                 self.statics[s["path"]] = s
+        self.inlined_into = {}
+        if not os.environ.get("PV_NO_INLINE"):
+            from .inline import inline_unknown_helpers
+            self.inlined_into = inline_unknown_helpers(self)
+            self._drop_inlined_helpers()
+
+    def _drop_inlined_helpers(self):
+        """a helper whose every call was replaced by its body is no longer a function of the program the rules see
+        (it stays available in self.helpers); one that is still called (call cycle) or referenced as a function item
+        stays"""
+        import json as _json
+        self.helpers = {}
+        if not self.inlined_into:
+            return
+        still = set()
+        for p, f in self.fns.items():
+            for b in f.body["blocks"]:
+                t = b["term"]
+                if t["t"] == "call":
+                    c = callee_name(t)
+                    if c in self.inlined_into and c != p:
+                        still.add(c)
+            txt = None
+            for h in self.inlined_into:
+                if h == p:
+                    continue
+                if txt is None:
+                    txt = _json.dumps(f.body["blocks"])
+                if '"fn": "%s"' % h in txt:
+                    still.add(h)
+        for h in list(self.inlined_into):
+            if h in still or not self.inlined_into[h]:
+                continue
+            f = self.fns.pop(h)
+            self.helpers[h] = f
+            l = self.by_nice.get(f.nice, [])
+            if f in l:
+                l.remove(f)
 
     def fn(self, path):
         """Exact def-path lookup; fail closed."""
@@ -127,7 +165,8 @@ class Facts:
         return [f for p, f in self.fns.items() if p == suffix or p.endswith("::" + suffix)]
 
     def closures_of(self, path):
-        return [f for f in self.fns.values() if f.kind == "Closure" and f.parent == path]
+        parents = {path} | {h for h, into in self.inlined_into.items() if path in into}
+        return [f for f in self.fns.values() if f.kind == "Closure" and f.parent in parents]
 
 
 class AnchorMissing(Exception):
